@@ -54,6 +54,7 @@ type FuncContract struct {
 	HasAssigns bool
 	BeforeAssume []*Clause
 	SplitExits bool
+	Decreases  *Clause // function-level variant: checked at calls between functions that both declare one
 	AssignsAny bool // "assigns anything": no heap frame is claimed (effects and ghost logs still are)
 	Effects    []string
 	HasEffects bool
@@ -146,7 +147,7 @@ type GlobalFact struct {
 
 var clauseKeywords = map[string]bool{"func": true, "spec": true, "axiom": true, "requires": true, "ensures": true,
 	"assigns": true, "effects": true, "nilable": true, "loop": true, "pure": true, "trusted": true, "iface": true,
-	"import": true, "inline": true, "global": true, "props": true, "split": true, "reveal": true, "use": true, "typeinv": true, "behaves": true, "behaviour": true, "check": true, "captured": true, "fileprops": true, "atcall": true, "iterates": true, "iter": true, "assume-after": true, "assume-before": true}
+	"import": true, "inline": true, "global": true, "props": true, "split": true, "reveal": true, "use": true, "typeinv": true, "behaves": true, "behaviour": true, "check": true, "captured": true, "fileprops": true, "decreases": true, "atcall": true, "iterates": true, "iter": true, "assume-after": true, "assume-before": true}
 
 func firstWord(s string) string {
 	s = strings.TrimSpace(s)
@@ -444,6 +445,17 @@ func (P *Program) parseClauses(lines []cline, sc *Scope, pkgPath string, lib boo
 				}
 				cur.Splits = append(cur.Splits, &Clause{Kind: "split", Text: part, Expr: e, File: l.file, Line: l.line})
 			}
+		case "decreases":
+			// decreases e: a non-negative integer measure of the parameters; at every call from a function with a
+			// measure to a function with a measure the callee's must be strictly smaller (termination of recursion)
+			if cur == nil {
+				return errf(l, "decreases outside func")
+			}
+			e, err := parseSpecExpr(rest)
+			if err != nil {
+				return errf(l, "%v in %q", err, rest)
+			}
+			cur.Decreases = &Clause{Kind: "decreases", Text: rest, Expr: e, File: l.file, Line: l.line}
 		case "props":
 			cur.Props = append(cur.Props, splitNames(rest)...)
 		case "trusted":
